@@ -49,6 +49,7 @@ class MT:
         self.nthreads = 1
         self.collect = False         # pass A: sequential semantics, only record the values written to shared bytes
         self.cands = {}              # (addr, n) -> set of concrete values / None (unconstrained)
+        self.seq_states = {}         # tid -> final state of the thread's sequential run (foreign heap objects)
 
     # ---- hooks called by the engine
     def is_shared(self, a, n):
@@ -112,6 +113,15 @@ class MT:
     def rmw_failed(self, eng, st):
         pass
 
+    def foreign(self, st, a):
+        """object at address a in the final memory of another thread's sequential run (pass A)"""
+        for tid, s in self.seq_states.items():
+            if tid != st.ext.get('tid', 0):
+                o = s.find(a)
+                if o is not None and o.base not in st.mem:
+                    return o
+        return None
+
     def on_assert(self, eng, st, c, msg):
         if self.collect:
             return
@@ -134,6 +144,8 @@ class MT:
             tp = ThreadPath(tid, s.ext.get('events', []), list(s.pc), s.ext.get('asserts', []), s.ext.get('spawns', []), s.ext.get('touched', {}), pe.kind)
             # a violation met on this thread path (memory error, failed library precondition, ...) counts only if the path is schedulable
             tp.viol = e.violations[-1] if pe.kind == 'violation' and e.violations else None
+            if self.collect and pe.kind == 'return':
+                self.seq_states[tid] = s
             paths.append(tp)
         eng.on_end = on_end
         eng.work.append(st)
